@@ -62,6 +62,8 @@ pub(crate) struct CommandWaker {
 impl Wake for CommandWaker {
     fn wake(self: Arc<Self>) {
         self.wake_by_ref();
+        #[cfg(crux_verif)]
+        crate::verif::point("cw.wake.before_drop");
     }
 
     fn wake_by_ref(self: &Arc<Self>) {
@@ -69,8 +71,14 @@ impl Wake for CommandWaker {
         // nothing to do.
         // TODO: Does that mean we should bail, since waking ourselves is
         // now pointless?
+        #[cfg(crux_verif)]
+        crate::verif::point("cw.wake.enter");
         let _ = self.ready_queue.send(self.task_id);
+        #[cfg(crux_verif)]
+        crate::verif::point("cw.wake.sent");
         self.woken.store(true, Ordering::Release);
+        #[cfg(crux_verif)]
+        crate::verif::point("cw.wake.flagged");
 
         // Note: calling `wake` before `register` is a no-op
         self.parent_waker.wake();
@@ -212,6 +220,8 @@ impl<Effect, Event> Command<Effect, Event> {
         };
 
         drop(waker);
+        #[cfg(crux_verif)]
+        crate::verif::point("cmd.run_task.polled");
 
         // If the task is pending, but there's only one copy of the waker - our one -
         // it can never be woken up again so we most likely need to evict it.
@@ -220,6 +230,8 @@ impl<Effect, Event> Command<Effect, Event> {
         // Note that there is an exception: the task may have used the waker and dropped it,
         // making it ready, rather than abandoned.
         let task_is_ready = arc_waker.woken.load(Ordering::Acquire);
+        #[cfg(crux_verif)]
+        crate::verif::point("cmd.run_task.flag_read");
         if result == TaskState::Suspended && !task_is_ready && Arc::strong_count(&arc_waker) < 2 {
             return TaskState::Cancelled;
         }
@@ -239,5 +251,17 @@ impl<Effect, Event> Command<Effect, Event> {
 
     pub fn was_aborted(&self) -> bool {
         self.aborted.load(Ordering::Acquire)
+    }
+
+    /// Number of tasks currently held by this command (no polling, no side effects).
+    #[cfg(crux_verif)]
+    pub fn verif_live_tasks(&self) -> usize {
+        self.tasks.len()
+    }
+
+    /// (effects, events) emitted but not yet taken (no polling, no side effects).
+    #[cfg(crux_verif)]
+    pub fn verif_pending_outputs(&self) -> (usize, usize) {
+        (self.effects.len(), self.events.len())
     }
 }
